@@ -47,6 +47,8 @@ type jobFail struct {
 type jobOut struct {
 	Evals    int            `json:"evals"`
 	Steps    int            `json:"steps"`
+	Lines    int            `json:"lines"`
+	LinesUI  int            `json:"lines_ui"`
 	Fails    []jobFail      `json:"fails,omitempty"`
 	Outcomes map[string]int `json:"outcomes"`
 	Sample   any            `json:"sample,omitempty"`
@@ -91,6 +93,10 @@ func worker(raw json.RawMessage) any {
 		r := runE2E(c)
 		out.Evals++
 		out.Steps += r.Steps
+		out.Lines += r.Lines
+		if c.Spec.U != 0 {
+			out.LinesUI += r.Lines
+		}
 		out.Outcomes[outcomeKey(c, r)]++
 		if r.Fail != nil {
 			out.Fails = append(out.Fails, jobFail{i, *r.Fail})
@@ -134,7 +140,7 @@ func main() {
 		"x authority {127.0.0.1:8554, [::1]:8554, localhost:8554} x user-info {none, u:p, u:p%40x (thorough only)}; complete product, no sampling. " +
 		"Part A: x media count 1..3 x flow {play: DESCRIBE, SETUP each media in the order (n=2: 1,0; n=3: 2,0,1), PLAY, PAUSE, TEARDOWN; record: ANNOUNCE, SETUPs, RECORD, PAUSE, TEARDOWN} over TCP, one fresh server+client per execution. " +
 		"Part B: x control style (14 styles, see unit.go) x media count 1..3 x media index. non-trivial = URL has at least one feature beyond the plain /a on IPv4 without query and user-info; distinct = the case tuple. " +
-		"A failing case is reported only when no simpler case of the space (one feature removed: segment kind -> a, one segment dropped, query -> x=1 -> none, authority -> IPv4, user-info escaped -> plain -> none, one media less) fails in the same way; the signature's last element lists the features of that minimal case.")
+		"A failing case is reported only when no simpler case of the space (one feature removed: segment kind -> a, one segment dropped, query -> x=1 -> none, authority -> IPv4, user-info escaped -> plain -> none, one media less) fails in the same way; the URL class in the signature lists the features of that minimal case (signatures: <flow>/<step>/<failure>/<class>, wire/<failure>/<class>, unit/<play|record>/<failure>/<class>/<control style>).")
 	run.Assume("handler convention, read from getPathAndQuery for the plain URL /a/b?x=1: Path = decoded path with its leading slash (\"/a/b\"), Query = raw query without '?' (\"x=1\"); the same convention is demanded for every URL (so %41 -> \"/A\", a%2Fb -> \"/a/b\", a%20b -> \"/a b\"); calibrated at run time")
 	run.Assume("which media a SETUP configured is read from ServerSession.Medias() (order of set-up) against the server's own description (play: the stream's medias; record: AnnouncedDescription), plus media type / format type against the client's media")
 	run.Assume("user-info check: every line '<METHOD> <url> RTSP/1.0' written by the client; violation when the authority part of <url> contains '@' or the URL contains '<userinfo>@'")
@@ -153,14 +159,25 @@ func main() {
 		group := ""
 		switch {
 		case rp.Part == "e2e" && rp.E2E != nil:
-			g := run.Begin("e2e", func() any { return rp })
-			r := runE2E(*rp.E2E)
-			g.End()
-			f = r.Fail
-			if f != nil {
-				group = f.group(rp.E2E.Flow)
+			// in a worker process: a panic in a library goroutine must not take the replay down
+			rr := evid.RunJobs([]any{jobT{Rerun: []e2eCase{*rp.E2E}, Times: 1}}, 1, time.Minute)[0]
+			if rr.Crashed || rr.Stalled {
+				kind := "crash"
+				if rr.Stalled {
+					kind = "hang"
+				}
+				f = &failT{Step: kind, Kind: kind, Msg: "worker process " + kind + "; stderr tail: " + tail(rr.Stderr, 1500)}
+				group = rp.E2E.Flow + "/" + kind
+			} else {
+				var o jobOut
+				if err := json.Unmarshal(rr.Output, &o); err != nil {
+					run.Fatal("worker output: %v", err)
+				}
+				if len(o.Fails) > 0 {
+					f = &o.Fails[0].Fail
+					group = f.group(rp.E2E.Flow)
+				}
 			}
-			fmt.Println("request lines:", r.Shapes)
 		case rp.Part == "unit" && rp.Unit != nil:
 			f, _ = runUnit(*rp.Unit)
 			if f != nil {
@@ -220,6 +237,13 @@ func cpuSeconds(who int) float64 {
 	}
 	t := float64(ru.Utime.Sec+ru.Stime.Sec) + float64(ru.Utime.Usec+ru.Stime.Usec)/1e6
 	return float64(int(t*10)) / 10
+}
+
+func tail(s string, n int) string {
+	if len(s) > n {
+		return s[len(s)-n:]
+	}
+	return s
 }
 
 func lastElem(sig string) string {
@@ -371,7 +395,6 @@ func partA(run *evid.Run) {
 	for from := 0; from < total; from += per {
 		jobs = append(jobs, jobT{Thorough: run.Thorough(), From: from, To: min(from+per, total)})
 	}
-	results := evid.RunJobs(jobs, 16, 3*time.Minute)
 	type rec struct {
 		group string
 		fail  failT
@@ -380,36 +403,66 @@ func partA(run *evid.Run) {
 	idx := map[string]int{}
 	byKind := map[string]int{}
 	outcomes := map[string]int{}
-	steps := 0
-	for ji, r := range results {
-		j := jobs[ji].(jobT)
-		if r.Crashed || r.Stalled {
+	steps, lines, linesUI := 0, 0, 0
+	// collect merges the outputs of one round and returns the jobs whose worker crashed or stalled
+	collect := func(jobs []any, results []evid.JobResult) (bad []int) {
+		for ji, r := range results {
+			if r.Crashed || r.Stalled {
+				bad = append(bad, ji)
+				continue
+			}
+			var o jobOut
+			if err := json.Unmarshal(r.Output, &o); err != nil {
+				run.Fatal("worker output: %v: %s", err, r.Output)
+			}
+			run.Eval(int64(o.Evals))
+			steps += o.Steps
+			lines += o.Lines
+			linesUI += o.LinesUI
+			for k, n := range o.Outcomes {
+				outcomes[k] += n
+			}
+			for _, f := range o.Fails {
+				c := space.At(f.Idx)
+				g := f.Fail.group(c.Flow)
+				fails[c.key()] = rec{g, f.Fail}
+				idx[c.key()] = f.Idx
+				byKind[g]++
+			}
+			if o.Sample != nil && run.NeedSample() && ji%(len(jobs)/6+1) == 0 {
+				run.Sample(o.Sample)
+			}
+		}
+		return bad
+	}
+	results := evid.RunJobs(jobs, 16, 3*time.Minute)
+	if bad := collect(jobs, results); len(bad) > 0 {
+		// a worker died or stalled: run the cases of those jobs one per job to find the case
+		var singles []any
+		for _, ji := range bad {
+			j := jobs[ji].(jobT)
+			for i := j.From; i < j.To; i++ {
+				singles = append(singles, jobT{Thorough: run.Thorough(), From: i, To: i + 1})
+			}
+		}
+		sres := evid.RunJobs(singles, 16, 45*time.Second)
+		sbad := collect(singles, sres)
+		for _, si := range sbad {
+			i := singles[si].(jobT).From
+			c := space.At(i)
 			kind := "crash"
-			if r.Stalled {
+			if sres[si].Stalled {
 				kind = "hang"
 			}
-			run.Violation("e2e/"+kind, map[string]any{"part": "job", "job": j, "first_url": space.At(j.From).Spec.URL(), "stderr": r.Stderr})
-			run.Cap(fmt.Sprintf("job %d-%d %s", j.From, j.To, kind))
-			continue
-		}
-		var o jobOut
-		if err := json.Unmarshal(r.Output, &o); err != nil {
-			run.Fatal("worker output: %v: %s", err, r.Output)
-		}
-		run.Eval(int64(o.Evals))
-		steps += o.Steps
-		for k, n := range o.Outcomes {
-			outcomes[k] += n
-		}
-		for _, f := range o.Fails {
-			c := space.At(f.Idx)
-			g := f.Fail.group(c.Flow)
-			fails[c.key()] = rec{g, f.Fail}
-			idx[c.key()] = f.Idx
+			g := c.Flow + "/" + kind
+			fails[c.key()] = rec{g, failT{Step: kind, Kind: kind, Msg: "worker process " + kind + " (twice: inside its job and alone); stderr tail: " + tail(sres[si].Stderr, 1500)}}
+			idx[c.key()] = i
 			byKind[g]++
 		}
-		if o.Sample != nil && run.NeedSample() && ji%(len(jobs)/6+1) == 0 {
-			run.Sample(o.Sample)
+		if len(sbad) == 0 {
+			for _, ji := range bad {
+				run.Flaky(fmt.Sprintf("worker crash/stall in job %v did not reproduce case by case: %s", jobs[ji], results[ji].Stderr))
+			}
 		}
 	}
 	for i := 0; i < total; i++ {
@@ -423,6 +476,8 @@ func partA(run *evid.Run) {
 	run.Set("e2e_cases", total)
 	run.Set("e2e_cases_failing", len(fails))
 	run.Set("e2e_handler_callbacks_checked", steps)
+	run.Set("e2e_request_lines_checked", lines)
+	run.Set("e2e_request_lines_checked_url_had_userinfo", linesUI)
 	run.Set("e2e_failing_cases_by_kind", byKind)
 	run.Set("e2e_outcome_histogram_size", len(outcomes))
 
@@ -432,6 +487,7 @@ func partA(run *evid.Run) {
 	}
 	sort.Slice(keys, func(a, b int) bool { return idx[keys[a]] < idx[keys[b]] })
 	var minimal []e2eCase
+	nMinimal := 0
 	var minRec []rec
 	for _, k := range keys {
 		c := space.At(idx[k])
@@ -443,12 +499,18 @@ func partA(run *evid.Run) {
 				break
 			}
 		}
-		if isMin {
+		if isMin && (r.fail.Step == "crash" || r.fail.Step == "hang") {
+			// already reproduced in a process of its own; a re-run would only kill another worker
+			cc := c
+			sig := r.group + "/" + classOf(c.features())
+			run.Violation(sig, replayT{Part: "e2e", E2E: &cc, Sig: sig, URL: c.Spec.URL(), Msg: r.fail.Msg})
+			nMinimal++
+		} else if isMin {
 			minimal = append(minimal, c)
 			minRec = append(minRec, r)
 		}
 	}
-	run.Set("e2e_minimal_failing_cases", len(minimal))
+	run.Set("e2e_minimal_failing_cases", len(minimal)+nMinimal)
 	if len(minimal) == 0 {
 		return
 	}
